@@ -1585,9 +1585,12 @@ ElemTemplateElement::LocatorProxy::getSystemId() const
 
 
 bool
-ElemTemplateElement::childTypeAllowed(int   /* xslToken */) const
+ElemTemplateElement::childTypeAllowed(int   xslToken) const
 {
-    return true;
+    // xsl:with-param is only allowed in xsl:apply-templates and
+    // xsl:call-template, which override this function.  Anywhere
+    // else there is no parameter frame to receive its value.
+    return xslToken != StylesheetConstructionContext::ELEMNAME_WITH_PARAM;
 }
 
 
